@@ -254,6 +254,16 @@ pub fn search(tier: &str, seed: u64, s: &mut Search) {
         );
         inputs.push(("sizeless".into(), doc.into_bytes(), None));
     }
+    // the same content written with a namespace prefix on every element (with text: the command decides from the
+    // document whether fonts are needed), and documents whose content depends on the options (languages, rendering hints)
+    for k in 0..(if tier == "thorough" { 60 } else { 12 }) {
+        let doc = match k % 3 {
+            0 => format!(r##"<svg:svg xmlns:svg="http://www.w3.org/2000/svg" width="120" height="60"><svg:rect x="2" y="2" width="116" height="56" fill="none" stroke="green" stroke-width="2"/><svg:text x="10" y="40" font-family="Noto Sans" font-size="{}" fill="#000">Hello</svg:text></svg:svg>"##, rng.range(14, 30)),
+            1 => format!(r##"<s:svg xmlns:s="http://www.w3.org/2000/svg" xmlns:xlink="http://www.w3.org/1999/xlink" width="100" height="80"><s:defs><s:linearGradient id="g"><s:stop offset="0" stop-color="red"/><s:stop offset="1" stop-color="blue"/></s:linearGradient></s:defs><s:g><s:circle cx="50" cy="40" r="{}" fill="url(#g)"/><s:text x="5" y="70" font-size="12">ab</s:text></s:g></s:svg>"##, rng.range(10, 35)),
+            _ => format!(r##"<svg xmlns="http://www.w3.org/2000/svg" width="100" height="60"><switch><rect systemLanguage="ru" width="100" height="60" fill="#d00"/><rect systemLanguage="de, fr" width="100" height="60" fill="#0a0"/><rect systemLanguage="en" width="100" height="60" fill="#00d"/><rect width="100" height="60" fill="#888"/></switch><path d="M 5 5 L 95 {} L 5 55" fill="none" stroke="black" stroke-width="3"/><text x="5" y="50" font-size="20">xy</text></svg>"##, rng.range(10, 50)),
+        };
+        inputs.push(("options-sensitive".into(), doc.into_bytes(), None));
+    }
     // a drawing that lies outside of the page, and an empty one (for --export-area-drawing)
     for k in 0..(if tier == "thorough" { 40 } else { 8 }) {
         let doc = match k % 4 {
@@ -314,6 +324,15 @@ pub fn search(tier: &str, seed: u64, s: &mut Search) {
         if let Some(hg) = huge { args.extend([hg[0].to_string(), hg[1].to_string()]); }
         if dpi != 96 { args.extend(["--dpi".into(), dpi.to_string()]); }
         if let Some(b) = bg { args.extend(["--background".into(), b.to_string()]); }
+        // options that go straight into usvg::Options
+        let langs: Option<&str> = if class == "options-sensitive" || rng.chance(1, 6) { Some(*rng.pick(&["ru", "en, ru", "ru,en", "de", "fr , en", "xx"])) } else { None };
+        if let Some(l) = langs { args.extend(["--languages".into(), l.to_string()]); }
+        let shape_r: Option<&str> = if rng.chance(1, 6) { Some(*rng.pick(&["optimizeSpeed", "crispEdges", "geometricPrecision"])) } else { None };
+        if let Some(v) = shape_r { args.extend(["--shape-rendering".into(), v.to_string()]); }
+        let text_r: Option<&str> = if rng.chance(1, 8) { Some(*rng.pick(&["optimizeSpeed", "optimizeLegibility", "geometricPrecision"])) } else { None };
+        if let Some(v) = text_r { args.extend(["--text-rendering".into(), v.to_string()]); }
+        let font_size: Option<u32> = if rng.chance(1, 8) { Some(*rng.pick(&[8u32, 20, 40])) } else { None };
+        if let Some(v) = font_size { args.extend(["--font-size".into(), v.to_string()]); }
         let area_drawing = rng.chance(1, 8) || (class == "off-page" && rng.chance(2, 3));
         if area_drawing { args.push("--export-area-drawing".into()); }
         let key = format!("{} {:?} [{}]", class, args[NF..].join(" "), match path { Some(p) => p.display().to_string(), None => String::from_utf8_lossy(data).chars().take(600).collect() });
@@ -389,7 +408,11 @@ pub fn search(tier: &str, seed: u64, s: &mut Search) {
             continue;
         };
         // the library, same options
-        let o = lib_options(if mode == 6 { inp.parent().map(|d| d.join("x.svg")) } else { Some(inp.clone()) }.as_deref(), dpi as f32, w, h);
+        let mut o = lib_options(if mode == 6 { inp.parent().map(|d| d.join("x.svg")) } else { Some(inp.clone()) }.as_deref(), dpi as f32, w, h);
+        if let Some(l) = langs { o.languages = l.split(',').map(|x| x.trim().to_string()).collect(); }
+        if let Some(v) = shape_r { o.shape_rendering = v.parse().unwrap(); }
+        if let Some(v) = text_r { o.text_rendering = v.parse().unwrap(); }
+        if let Some(v) = font_size { o.font_size = v as f32; }
         let lib = pan::catch(|| {
             let t = usvg::Tree::from_data(data, &o).ok()?;
             let size = t.size().to_int_size();
@@ -511,6 +534,16 @@ pub fn search(tier: &str, seed: u64, s: &mut Search) {
     for _ in 0..(if tier == "thorough" { 40 } else { 8 }) {
         usvg_inputs.push((digits.as_bytes().to_vec(), digits_path.clone()));
     }
+    // content that depends on the parse options of the usvg command
+    for k in 0..(if tier == "thorough" { 30 } else { 8 }) {
+        let doc = format!(
+            r##"<svg xmlns="http://www.w3.org/2000/svg" width="1in" height="{}mm"><switch><rect id="ru" systemLanguage="ru" width="50%" height="60" fill="#d00"/><rect id="defr" systemLanguage="de, fr" width="100" height="60" fill="#0a0"/><rect id="en" systemLanguage="en" width="100" height="60" fill="#00d"/><rect id="fallback" width="100" height="60" fill="#888"/></switch><circle cx="1cm" cy="10pt" r="2mm"/></svg>"##,
+            10 + k
+        );
+        let pth = dir.join(format!("sw{}.svg", k));
+        let _ = std::fs::write(&pth, &doc);
+        usvg_inputs.push((doc.into_bytes(), pth));
+    }
     for (k, (_class, data, path)) in inputs.iter().enumerate() {
         if path.is_none() && _class != "generated" {
             continue;
@@ -556,10 +589,36 @@ pub fn search(tier: &str, seed: u64, s: &mut Search) {
             a.extend(["--id-prefix".into(), "p_".into()]);
             wo.id_prefix = Some("p_".into());
         }
+        // parse options of the usvg command
+        let mut o = crate::corpus::opts_for(Some(p));
+        let mut popt = vec![];
+        if rng.chance(1, 3) || text.contains("systemLanguage") {
+            let l = *rng.pick(&["ru", "en, ru", "ru,en", "de", "fr , en"]);
+            a.extend(["--languages".into(), l.to_string()]);
+            o.languages = l.split(',').map(|x| x.trim().to_string()).collect();
+            popt.push("languages");
+        }
+        if rng.chance(1, 4) {
+            let d = *rng.pick(&[72u32, 300, 150]);
+            a.extend(["--dpi".into(), d.to_string()]);
+            o.dpi = d as f32;
+            popt.push("dpi");
+        }
+        if rng.chance(1, 4) {
+            let v = *rng.pick(&["optimizeSpeed", "crispEdges", "geometricPrecision"]);
+            a.extend(["--shape-rendering".into(), v.to_string()]);
+            o.shape_rendering = v.parse().unwrap();
+            popt.push("shape-rendering");
+        }
+        if rng.chance(1, 4) {
+            let (dw, dh) = (rng.range(10, 400) as u32, rng.range(10, 400) as u32);
+            a.extend(["--default-width".into(), dw.to_string(), "--default-height".into(), dh.to_string()]);
+            o.default_size = usvg::Size::from_wh(dw as f32, dh as f32).unwrap();
+            popt.push("default-size");
+        }
         let optkey = a[1..].join(" ");
         a.extend([p.display().to_string(), out.display().to_string()]);
         let r = run("usvg", &a, None, &dir);
-        let o = crate::corpus::opts_for(Some(p));
         let lib = pan::catch(|| usvg::Tree::from_data(data, &o).ok().map(|t| t.to_string(&wo)));
         let key = format!("{} [{}]", if p.starts_with(&dir) { text.chars().take(600).collect::<String>() } else { p.display().to_string() }, optkey);
         s.case("usvg", &key, r.code == Some(0));
@@ -568,7 +627,7 @@ pub fn search(tier: &str, seed: u64, s: &mut Search) {
                 let got = std::fs::read_to_string(&out).unwrap_or_default();
                 if got.trim_end() != want.trim_end() {
                     let mut blamed = vec![];
-                    for name in ["--coordinates-precision", "--transforms-precision", "--indent", "--attrs-indent", "--id-prefix"] {
+                    for name in ["--coordinates-precision", "--transforms-precision", "--indent", "--attrs-indent", "--id-prefix", "--languages", "--dpi", "--shape-rendering", "--default-width"] {
                         if optkey.contains(name) {
                             blamed.push(name.trim_start_matches("--"));
                         }
